@@ -149,3 +149,56 @@ Definition f5_client_view : view sterm :=
 Definition f5_server_view : view sterm :=
   mk_view [SAtom 101 (* ClientHello as received *); SAtom 2; SAtom 3; SAtom 4] [] (SAtom 10) (SAtom 11) (SSecret 1)
           false false.
+
+(* ================================================================ the server's extension-driven negotiation state
+
+   internal/flight/flight12/flight0handler.go negotiateClientHelloExtensions: what a ClientHello negotiates
+   through its extensions.  With hello verification it runs on the first, cookie-less ClientHello
+   (flight0Parse, to decide how to answer) and again on the second (flight2Parse).  It first puts the
+   extension-driven fields back to this side's defaults and then applies the extension loop, so that
+   nothing only the first ClientHello carried can survive into the handshake the Finished messages cover. *)
+
+Inductive hello_ext :=
+| XEms                          (* extended_master_secret *)
+| XSni (name : N)               (* server_name *)
+| XAlpn (protocols : list N)    (* application_layer_protocol_negotiation *)
+| XSigCert (schemes : list N)   (* signature_algorithms_cert *)
+| XGroups (curve : N)           (* supported_groups: the curve selectEllipticCurve picks from it *)
+| XOther (typ : N).             (* extensions that do not touch this state *)
+
+Record neg_state := mk_neg {
+  n_ems : bool;                 (* state.ExtendedMasterSecret *)
+  n_sni : option N;             (* state.ServerName: what GetCertificate is asked for *)
+  n_alpn : list N;              (* state.PeerSupportedProtocols *)
+  n_sigcert : list N;           (* state.RemoteCertSignatureSchemes *)
+  n_curve : N;                  (* state.NamedCurve *)
+  n_rest : N                    (* everything else in the state: not touched here *)
+}.
+
+Record neg_cfg := mk_ncfg { g_ems_enabled : bool; g_default_curve : N }.
+
+Definition neg_reset (g : neg_cfg) (s : neg_state) : neg_state :=
+  mk_neg false None [] [] (g_default_curve g) (n_rest s).
+
+Definition neg_apply1 (g : neg_cfg) (s : neg_state) (x : hello_ext) : neg_state :=
+  match x with
+  | XEms => mk_neg (g_ems_enabled g) (n_sni s) (n_alpn s) (n_sigcert s) (n_curve s) (n_rest s)
+  | XSni n => mk_neg (n_ems s) (Some n) (n_alpn s) (n_sigcert s) (n_curve s) (n_rest s)
+  | XAlpn l => mk_neg (n_ems s) (n_sni s) l (n_sigcert s) (n_curve s) (n_rest s)
+  | XSigCert l => mk_neg (n_ems s) (n_sni s) (n_alpn s) l (n_curve s) (n_rest s)
+  | XGroups c => mk_neg (n_ems s) (n_sni s) (n_alpn s) (n_sigcert s) c (n_rest s)
+  | XOther _ => s
+  end.
+
+(* [reset_inside] = the reset is part of negotiateClientHelloExtensions (the code); [false] = the reset is
+   done only once, in flight0Parse, before the FIRST ClientHello (seeded change C04e) *)
+Definition negotiate_with (reset_inside : bool) (g : neg_cfg) (s : neg_state) (hello : list hello_ext) : neg_state :=
+  fold_left (neg_apply1 g) hello (if reset_inside then neg_reset g s else s).
+
+Definition server12_resets_inside_negotiation : bool := true.
+
+(* flight0Parse on the first ClientHello, then flight2Parse on the second *)
+Definition server_negotiation_with (reset_inside : bool) (g : neg_cfg) (s0 : neg_state) (ch1 ch2 : list hello_ext) : neg_state :=
+  negotiate_with reset_inside g (negotiate_with true g s0 ch1) ch2.
+
+Definition server_negotiation := server_negotiation_with server12_resets_inside_negotiation.
